@@ -122,7 +122,10 @@ logs.set_level(100)
 job = json.load(sys.stdin)
 files = sorted(str(p) for p in Path(job["root"]).rglob("*.py"))
 if job["shuffle"] is not None:
-    random.Random(job["shuffle"]).shuffle(files)
+    # the same set of files, some of them named twice (what overlapping command-line paths produce), in a shuffled order
+    rnd = random.Random(job["shuffle"])
+    files = files + [f for f in files if "solo_" in f or "settled_" in f or rnd.random() < 0.3]
+    rnd.shuffle(files)
 r = main.format_files([Path(f) for f in files], n_cores=job["n_cores"], max_passes=job["max_passes"])
 print(json.dumps({"ret": bool(r)}))
 """
@@ -257,7 +260,7 @@ def run(tier, seed):
                     fl.append({"id": f"schedule:files::{ti}::{mp_}::{nc}", "cls": "schedule:files-differ", "input": json.dumps({f: mods.get(f) for f in diff[:2]})[:2000],
                                "observed": f"n_cores={nc} shuffled({sh}) max_passes={mp_}: files {diff[:3]} differ from the sequential run", "required": "exactly the files the sequential run gives"})
     out.append({"name": "c06-worker-schedules", "function": "main.format_files", "contract": "tree content and return value equal those of the sequential run (n_cores=1, sorted list)",
-                "space": f"{len(trees)} trees of {len(trees[0])} modules in {len({os.path.dirname(f) for f in trees[0]})} folders (byte-identical copies of others, files that need a second pass and settled files each alone in a folder) x max_passes x (n_cores, shuffle seed) in {configs}, each configuration under its own fixed PYTHONHASHSEED", "bound": "enumerated configurations; OS scheduling of pool workers not controlled",
+                "space": f"{len(trees)} trees of {len(trees[0])} modules in {len({os.path.dirname(f) for f in trees[0]})} folders (byte-identical copies of others, files that need a second pass and settled files each alone in a folder) x max_passes x (n_cores, shuffle seed) in {configs} (shuffled lists name about a third of the files twice), each configuration under its own fixed PYTHONHASHSEED", "bound": "enumerated configurations; OS scheduling of pool workers not controlled",
                 "evaluations": evals, "distinct_nontrivial": len(trees), "exhaustive": False, "failures": P.cap(fl), "samples": [list(trees[0])[0]]})
     return out
 
